@@ -352,6 +352,8 @@ class Session:
             if want == "tree" and outcome != "tree":
                 if last["judged"]:
                     find("spurious_error", f"open raised {obs['error']} although every file it needs is intact")
+            elif want != "tree" and outcome == "tree" and last.get("cause") == "cachedir":
+                obs["drift"].append("the unusable user cache directory was tolerated (open returned a tree)")
             elif want != "tree" and outcome == "tree":
                 find("not_failstop", f"open returned a tree although it should fail ({want}): {self.damage_text(l)}")
             elif want == "oserror" and outcome == "error":
